@@ -80,10 +80,13 @@ fn hash_tree(dir: &str) -> String {
     h(&all)
 }
 
-const EXTRA: [(&str, &str); 4] = [
+const EXTRA: [(&str, &str); 7] = [
     ("<several missing fields>", "model P:\n    a: int\n    b: int\n    c: int\n    d: str\n    e: str\n\ndef main() -> None:\n    p = P()\n    q = P(a=1, zz=2, yy=3, xx=4)\n"),
     ("<several unknown names>", "def main() -> None:\n    print(u1, u2, u3, u4)\n    x: int = \"s\"\n    y: str = 1\n"),
     ("<several traits>", "trait A:\n    def a(self) -> int: ...\n\ntrait B:\n    def b(self) -> int: ...\n\ntrait C:\n    def c(self) -> int: ...\n\nclass K with A, B, C:\n    v: int\n\ndef main() -> None:\n    pass\n"),
+    ("<non-exhaustive match, several variants>", "enum Dir:\n    North\n    South\n    East\n    West\n    Up\n    Down\n\ndef f(d: Dir) -> int:\n    match d:\n        Dir.North => return 1\n    return 0\n\ndef g(o: Option[int], r: Result[int, str]) -> int:\n    match o:\n        Some(v) => return v\n    match r:\n        Ok(v) => return v\n    return 0\n"),
+    ("<several missing trait methods>", "trait T:\n    def a(self) -> int: ...\n    def b(self) -> int: ...\n    def c(self) -> int: ...\n    def d(self) -> int: ...\n    def e(self) -> int: ...\n\nclass K with T:\n    v: int\n\n@requires(p: int, q: int, r: str, s: str)\ntrait R:\n    def show(self) -> int:\n        return 1\n\nclass L with R:\n    z: int\n\ndef main() -> None:\n    pass\n"),
+    ("<duplicate and unknown fields>", "model P:\n    a: int\n    b: int\n\ndef main() -> None:\n    p = P(a=1, a=2, b=3, zz=4, yy=5, xx=6, ww=7)\n    q = undefined1 + undefined2 + undefined3\n"),
     ("<several rust imports>", "import rust::uuid\nimport rust::rand\nimport rust::regex\nimport rust::anyhow\nimport rust::log\nfrom rust::std::collections import HashMap\n\ndef main() -> None:\n    pass\n"),
 ];
 
